@@ -10,6 +10,7 @@ import (
 	"fmt"
 	"os"
 	"sort"
+	"strings"
 	"sync"
 	"testing"
 	"testing/synctest"
@@ -80,8 +81,10 @@ type zzPay struct {
 	waiting   bool // a waiter goroutine is subscribed
 	resolvedAtStep int
 
-	holdResolved bool
-	holdSettle   bool
+	holdResolved  bool
+	holdSettle    bool
+	holdAmbiguous bool
+	nudge         bool
 }
 
 func (p *zzPay) sender() int   { return p.route[0] }
@@ -171,6 +174,9 @@ func zzDrawCfg(r *simcore.Run) zzCfg {
 	var c zzCfg
 	arms := []string{"calm", "cuts", "restart", "crash"}
 	c.arm = arms[t.CfgDraw(len(arms))]
+	if a := os.Getenv("VERIF_ARM"); a != "" && !t.Replay() {
+		c.arm = a // experiments only; replay files of such runs do not reproduce without it
+	}
 	c.maxPays = 1 + t.CfgDraw(12)
 	c.maxSteps = 50 + t.CfgDraw(101)
 	if r.Tier == "thorough" {
@@ -266,7 +272,7 @@ func (s *zzSim) run() {
 	s.settleDeliveredToBob = map[lntypes.Hash]bool{}
 	s.bobIn = [2]map[uint64]lntypes.Hash{{}, {}}
 	s.firstFaultAt = -1
-	r.Logf("config: %s", s.cfg)
+	zzL(r, "config: %s", s.cfg)
 
 	zzInstallLogger(s)
 	defer s.teardown()
@@ -292,7 +298,7 @@ func (s *zzSim) run() {
 	for i := 0; i < 3; i++ {
 		s.initHold[i] = s.holding(i)
 	}
-	r.Logf("initial holdings A=%d B=%d C=%d", s.initHold[0], s.initHold[1], s.initHold[2])
+	zzL(r, "initial holdings A=%d B=%d C=%d", s.initHold[0], s.initHold[1], s.initHold[2])
 
 	for s.stepNo = 0; s.stepNo < s.cfg.maxSteps && r.Step(); s.stepNo++ {
 		s.step()
@@ -333,7 +339,7 @@ func (s *zzSim) afterQuiescence() {
 	})
 	for _, m := range sent {
 		a, b := zzConnEnds[m.conn][m.dir], zzConnEnds[m.conn][1-m.dir]
-		r.Logf("    %s>%s queued %s", zzNames[a], zzNames[b], m.desc)
+		zzL(r, "    %s>%s queued %s", zzNames[a], zzNames[b], m.desc)
 	}
 	if len(harn) > 0 {
 		r.Harness("%s", harn[0])
@@ -349,7 +355,7 @@ func (s *zzSim) afterQuiescence() {
 		case f.epoch != s.conns[f.conn].epoch || s.nodes[f.node].boots != f.boot:
 			tolerated = "link of a torn-down connection"
 		}
-		r.Logf("    link failure %s conn%d: %s (%s)", zzNames[f.node], f.conn, f.err, tolerated)
+		zzL(r, "    link failure %s conn%d: %s (%s)", zzNames[f.node], f.conn, f.err, tolerated)
 		if tolerated == "" {
 			r.Fail("channel-failure", "%s's link on connection %d reported OnChannelFailure(%s) although both peers are honest and no fault is active on it; lnd log tail:\n%s",
 				zzNames[f.node], f.conn, f.err, zzLogTail())
@@ -383,7 +389,7 @@ func (s *zzSim) pollResults() {
 	}
 	s.mu.Unlock()
 	for _, p := range newly {
-		s.r.Logf("    result %s: success=%v %s", p, p.success, p.resErr)
+		zzL(s.r, "    result %s: success=%v %s", p, p.success, p.resErr)
 		if s.firstFaultAt >= 0 {
 			s.paysDoneAfterFault++
 		}
@@ -431,7 +437,7 @@ func (s *zzSim) deliver(conn, dir int) {
 	c.q[dir] = c.q[dir][1:]
 	s.mu.Unlock()
 	from, to := zzConnEnds[conn][dir], zzConnEnds[conn][1-dir]
-	r.Logf("deliver %s>%s %s", zzNames[from], zzNames[to], w.desc)
+	zzL(r, "deliver %s>%s %s", zzNames[from], zzNames[to], w.desc)
 	msg, err := lnwire.ReadMessage(bytesReader(w.raw), 0)
 	if err != nil {
 		r.Harness("cannot decode queued message %s: %v", w.desc, err)
@@ -598,7 +604,7 @@ func (s *zzSim) step() {
 	for c := 0; c < 2; c++ {
 		c := c
 		if !s.conns[c].up {
-			ops = append(ops, zzOp{4, fmt.Sprintf("reconnect:%d", c), func() { s.reconnect(c) }})
+			ops = append(ops, zzOp{9, fmt.Sprintf("reconnect:%d", c), func() { s.reconnect(c) }})
 		}
 	}
 	if len(s.pays) < s.cfg.maxPays {
@@ -612,9 +618,9 @@ func (s *zzSim) step() {
 		p := p
 		if p.kind == zzKHold && !p.holdResolved && p.hasInv {
 			if s.invoiceState(p) == invoices.ContractAccepted {
-				ops = append(ops, zzOp{2, fmt.Sprintf("hold-settle:%d", p.idx), func() { s.resolveHold(p, true) }})
+				ops = append(ops, zzOp{3, fmt.Sprintf("hold-settle:%d", p.idx), func() { s.resolveHold(p, true) }})
+				ops = append(ops, zzOp{1, fmt.Sprintf("hold-cancel:%d", p.idx), func() { s.resolveHold(p, false) }})
 			}
-			ops = append(ops, zzOp{1, fmt.Sprintf("hold-cancel:%d", p.idx), func() { s.resolveHold(p, false) }})
 		}
 	}
 	ops = append(ops, zzOp{3, "time:short", func() { s.advance([]time.Duration{time.Millisecond, 10 * time.Millisecond, 60 * time.Millisecond}[r.Draw(3)]) }})
@@ -665,7 +671,7 @@ func (s *zzSim) abstractState() {
 }
 
 func (s *zzSim) tick(zl *zzLink) {
-	s.r.Logf("tick batch timer %s conn%d", zl.node.name, zl.conn)
+	zzL(s.r, "tick batch timer %s conn%d", zl.node.name, zl.conn)
 	select {
 	case zl.ticker.c <- time.Now():
 	default:
@@ -674,11 +680,51 @@ func (s *zzSim) tick(zl *zzLink) {
 	s.quiesce()
 }
 
+// advance lets fake time pass. Long jumps are taken in slices of at most 20s
+// and whatever the nodes say in between (fee updates, fail-backs of expired
+// mailbox packets, ...) is delivered before the clock moves on: time passes
+// while the network works, it is not frozen for half an hour (which would
+// make every link with a commitment in flight give up on its peer).
 func (s *zzSim) advance(d time.Duration) {
-	s.r.Logf("advance time %v", d)
-	time.Sleep(d)
+	zzL(s.r, "advance time %v", d)
 	s.r.Add("sim_time_ms", int64(d/time.Millisecond))
-	s.quiesce()
+	const slice = 20 * time.Second
+	for d > 0 {
+		x := d
+		if x > slice {
+			x = slice
+		}
+		time.Sleep(x)
+		d -= x
+		s.quiesce()
+		if d > 0 {
+			s.settleNetwork()
+		}
+	}
+}
+
+// settleNetwork delivers and ticks until nothing moves (fixed order).
+func (s *zzSim) settleNetwork() {
+	for i := 0; i < 200; i++ {
+		if s.nodes[zzB].kv.Fenced() {
+			return
+		}
+		if s.drain(1000) > 0 {
+			continue
+		}
+		ticked := false
+		for _, n := range s.nodes {
+			for _, zl := range n.links {
+				if zl != nil && zl.ticker.active.Load() {
+					s.tick(zl)
+					ticked = true
+				}
+			}
+		}
+		if !ticked {
+			return
+		}
+	}
 }
 
 func (s *zzSim) bumpHeight() {
@@ -690,13 +736,13 @@ func (s *zzSim) bumpHeight() {
 			s.r.Harness("switch of %s does not take a block epoch", n.name)
 		}
 	}
-	s.r.Logf("block height -> %d", s.nodes[0].height)
+	zzL(s.r, "block height -> %d", s.nodes[0].height)
 	s.quiesce()
 }
 
 // ---- payments -----------------------------------------------------------------
 
-var zzAmountsSat = []int64{1, 4, 5, 6, 199, 200, 201, 799, 800, 801, 1000, 5000, 20000}
+var zzAmountsSat = []int64{4, 5, 6, 199, 200, 201, 799, 800, 801, 1000, 5000, 20000, 100000}
 
 func (s *zzSim) newPayment() {
 	r := s.r
@@ -719,13 +765,13 @@ func (s *zzSim) newPayment() {
 		// never restart him.
 		p.route = []int{zzA, zzB, zzC}
 	}
-	switch v := r.Draw(20); {
-	case v < 9:
+	switch v := r.Draw(24); {
+	case v < 13:
 		p.kind = zzKValid
-	case v < 12:
+	case v < 17:
 		p.kind = zzKHold
 	default:
-		p.kind = 2 + (v-12)%(zzKinds-2)
+		p.kind = 2 + (v-17)%(zzKinds-2)
 	}
 	if !p.forwarded() && (p.kind == zzKFeeShort || p.kind == zzKFeeGenerous) {
 		p.kind = zzKValid
@@ -761,6 +807,17 @@ func (s *zzSim) newPayment() {
 			p.firstAmt += lnwire.MilliSatoshi(1 + r.Draw(5000))
 		}
 	}
+	s.addPayment(p)
+	zzL(r, "new %s", p)
+	if zzDebug {
+		fmt.Fprintf(os.Stderr, "PAY %x %s arm=%s\n", p.hash[:], zzKindNames[p.kind], s.cfg.arm)
+	}
+	s.sendPayment(p)
+	s.quiesce()
+}
+
+func (s *zzSim) addPayment(p *zzPay) {
+	r := s.r
 	var pb [8]byte
 	binary.BigEndian.PutUint64(pb[:], uint64(p.idx))
 	p.preimage = sha256.Sum256(append(append([]byte("verif-switchsim-preimage"), pb[:]...), byte(r.Seed), byte(r.Seed>>8), byte(r.Seed>>16)))
@@ -770,17 +827,15 @@ func (s *zzSim) newPayment() {
 	s.pays = append(s.pays, p)
 	s.payByHash[p.hash] = p
 	s.mu.Unlock()
-	r.Logf("new %s", p)
-	s.sendPayment(p)
-	s.quiesce()
 }
 
 func (s *zzSim) sendPayment(p *zzPay) {
 	r := s.r
 	sender, receiver := s.nodes[p.sender()], s.nodes[p.receiver()]
-	finalCltv := sender.height + testInvoiceCltvExpiry
+	// like lnd's router the sender pads the final expiry by 3 blocks
+	finalCltv := sender.height + testInvoiceCltvExpiry + 3
 	if p.kind == zzKBadFinalCltv {
-		finalCltv = sender.height + 2
+		finalCltv = sender.height + 4
 	}
 	exit := hop.NewLegacyPayload(&sphinx.HopData{
 		ForwardAmount: uint64(p.lastAmt), OutgoingCltv: finalCltv,
@@ -825,6 +880,14 @@ func (s *zzSim) sendPayment(p *zzPay) {
 			inv.Terms.Expiry = time.Hour
 		}
 		err := receiver.reg.AddInvoice(context.Background(), *inv, p.hash)
+		if err != nil && receiver.kv.Fenced() {
+			// the receiver crashed while storing the invoice: nobody
+			// ever learns of it, the payment is not attempted
+			s.mu.Lock()
+			p.done, p.success, p.resErr = true, false, "receiver crashed while creating the invoice"
+			s.mu.Unlock()
+			return
+		}
 		r.Must(err, "AddInvoice")
 		p.hasInv = true
 	}
@@ -836,7 +899,7 @@ func (s *zzSim) sendPayment(p *zzPay) {
 	err = sender.sw.SendHTLC(firstHop, p.attemptID, htlc)
 	if err != nil {
 		s.mu.Lock()
-		p.done, p.success, p.resErr = true, false, "SendHTLC: "+err.Error()
+		p.done, p.success, p.resErr = true, false, "SendHTLC: "+zzErrClass(err.Error())
 		s.mu.Unlock()
 		r.Count("pay_rejected_at_send")
 		return
@@ -872,7 +935,7 @@ func (s *zzSim) subscribe(p *zzPay) {
 		}
 		p.done = true
 		if res.Error != nil {
-			p.resErr = res.Error.Error()
+			p.resErr = zzErrClass(res.Error.Error())
 			return
 		}
 		if res.Preimage != p.preimage {
@@ -893,14 +956,33 @@ func (s *zzSim) invoiceState(p *zzPay) invoices.ContractState {
 func (s *zzSim) resolveHold(p *zzPay, settle bool) {
 	r := s.r
 	reg := s.nodes[p.receiver()].reg
+	// The database tells whether the invoice is still open to a decision: an
+	// earlier attempt cut short by the receiver's crash may have taken
+	// effect, and the expiry watcher cancels open invoices on its own.
+	switch s.invoiceState(p) {
+	case invoices.ContractSettled:
+		if !p.holdAmbiguous {
+			r.Fail("hold-settled-unasked", "the hold invoice of %s is settled although nobody released its preimage", p)
+		}
+		p.holdResolved, p.holdSettle = true, true
+	case invoices.ContractCanceled:
+		p.holdResolved, p.holdSettle = true, false
+	}
+	p.holdAmbiguous = false
+	if p.holdResolved {
+		zzL(r, "hold invoice of %s: already decided (settled=%v)", p, p.holdSettle)
+		return
+	}
 	var err error
 	if settle {
 		err = reg.SettleHodlInvoice(context.Background(), p.preimage)
 	} else {
 		err = reg.CancelInvoice(context.Background(), p.hash)
 	}
-	r.Logf("hold invoice of %s: settle=%v -> %v", p, settle, err)
+	zzL(r, "hold invoice of %s: settle=%v -> %v", p, settle, err)
 	if err != nil && s.nodes[p.receiver()].kv.Fenced() {
+		p.holdAmbiguous = true
+		s.quiesce()
 		return // retried after the reboot
 	}
 	if err != nil {
@@ -956,7 +1038,7 @@ func (s *zzSim) cutConn(conn int) int {
 func (s *zzSim) faultCut(conn int) {
 	infl := s.inflight()
 	lost := s.cutConn(conn)
-	s.r.Logf("CUT connection %d (%d queued messages lost, %d payments in flight)", conn, lost, infl)
+	zzL(s.r, "CUT connection %d (%d queued messages lost, %d payments in flight)", conn, lost, infl)
 	s.noteFault("cut")
 	if lost > 0 {
 		s.r.Count("fault_cut_lost_messages")
@@ -973,10 +1055,17 @@ func (s *zzSim) reconnect(conn int) {
 	s.mu.Unlock()
 	for _, e := range zzConnEnds[conn] {
 		if err := s.nodes[e].addLink(conn); err != nil {
+			if s.nodes[e].kv.Fenced() {
+				// the injected crash hit while the link came up
+				zzL(s.r, "RECONNECT connection %d aborted: %s crashed (%v)", conn, s.nodes[e].name, err)
+				s.cutConn(conn)
+				s.quiesce()
+				return
+			}
 			s.r.Fail("link-restart", "%s cannot bring its link on connection %d back from its database: %v", s.nodes[e].name, conn, err)
 		}
 	}
-	s.r.Logf("RECONNECT connection %d", conn)
+	zzL(s.r, "RECONNECT connection %d", conn)
 	s.quiesce()
 }
 
@@ -1019,7 +1108,7 @@ func (s *zzSim) rebootBob(why string) {
 	if err := bob.boot(); err != nil {
 		r.Fail("restart", "Bob does not come up after %s: %v", why, err)
 	}
-	r.Logf("REBOOT Bob (%s): %d queued messages lost, %d payments in flight, circuits pending=%d open=%d", why, lost, infl, np, no)
+	zzL(r, "REBOOT Bob (%s): %d queued messages lost, %d payments in flight, circuits pending=%d open=%d", why, lost, infl, np, no)
 	if np+no > 0 {
 		r.Count("probe_bob_reboot_with_circuits")
 	}
@@ -1050,7 +1139,7 @@ func (s *zzSim) faultArmCrash() {
 	}
 	s.crashArmed = true
 	s.noteFault("crash_armed")
-	r.Logf("ARM crash of Bob at his write #%d from now (after commit=%v)", k, after)
+	zzL(r, "ARM crash of Bob at his write #%d from now (after commit=%v)", k, after)
 }
 
 func (s *zzSim) faultLongTime() {
@@ -1065,7 +1154,7 @@ func (s *zzSim) faultFeeChange() {
 		n.fee.rate.Store(rate)
 	}
 	s.noteFault("fee_change")
-	s.r.Logf("fee estimators now say %d sat/kw", rate)
+	zzL(s.r, "fee estimators now say %d sat/kw", rate)
 }
 
 func (s *zzSim) teardown() {
@@ -1089,4 +1178,31 @@ func (s *zzSim) teardown() {
 	}
 	s.stat = map[string]int64{}
 	s.mu.Unlock()
+}
+
+// zzL logs one trace line (hashed by simcore); VERIF_DEBUG mirrors it to
+// stderr.
+func zzL(r *simcore.Run, format string, a ...interface{}) {
+	r.Logf(format, a...)
+	if zzDebug {
+		fmt.Fprintf(os.Stderr, "T| "+format+"\n", a...)
+	}
+}
+
+// zzErrClass keeps the stable head of an lnd error text (some of them dump
+// structures with pointer values).
+func zzErrClass(e string) string {
+	if i := strings.IndexAny(e, "\n"); i >= 0 {
+		e = e[:i]
+	}
+	if i := strings.Index(e, "(update="); i >= 0 {
+		e = e[:i]
+	}
+	if i := strings.Index(e, ", update="); i >= 0 {
+		e = e[:i] + ")"
+	}
+	if len(e) > 100 {
+		e = e[:100]
+	}
+	return e
 }
